@@ -32,7 +32,9 @@ class MultipleSegmentBaseType(SegmentBaseType):
         if self.segmentTimeline is not None:
             # 5.3.9.2.1: The attribute @duration and the element SegmentTimeline
             # shall not be present at the same time.
-            self.checkIsNone(self.duration)
+            self.attrs.check_none(
+                self.duration,
+                msg='@duration and SegmentTimeline shall not both be present')
 
     def children(self) -> list[DashElement]:
         rv = super().children()
